@@ -40,14 +40,22 @@ def _make_sources(td, layout, rng=None, exts=None):
             intact.append([])
             continue
         recs = []
-        w = RecordWriter(path)
-        for kind in spec.replace("!", ""):
-            r = A(n=k, s=f"s{k}\udcff" if k % 2 else f"s{k}", ts=(None if k == 2 else T1), ts2=(None if k % 3 == 1 or k == 2 else T2), _generated=GEN) if kind == "A" else B(n=k, t=f"t{k}", _generated=GEN)
-            k += 1
-            w.write(r)
-            recs.append(r)
-        w.flush()
-        w.close()
+        chunks = []  # a spec with "+" is a concatenation of streams (cat a b > c): every run is written by its own writer, with its own header frame
+        for pi, part in enumerate(spec.replace("!", "").split("+")):
+            ppath = path if pi == 0 else os.path.join(td, f"src{si}.part{pi}.records{ext}")
+            w = RecordWriter(ppath)
+            for kind in part:
+                r = A(n=k, s=f"s{k}\udcff" if k % 2 else f"s{k}", ts=(None if k == 2 else T1), ts2=(None if k % 3 == 1 or k == 2 else T2), _generated=GEN) if kind == "A" else B(n=k, t=f"t{k}", _generated=GEN)
+                k += 1
+                w.write(r)
+                recs.append(r)
+            w.flush()
+            w.close()
+            chunks.append(open(ppath, "rb").read())
+            if pi:
+                os.unlink(ppath)
+        if len(chunks) > 1:
+            open(path, "wb").write(b"".join(chunks))
         if spec.endswith("!"):
             data = open(path, "rb").read()
             if ext:
@@ -165,9 +173,9 @@ def _check(layout, opts, exts=None):
     return None
 
 
-def c16_pipeline(opts=None):
+def c16_pipeline(opts=None, layout=None):
     try:
-        bad = _check(["ABA", "BA", "A"], dict(opts or {}))
+        bad = _check(list(layout) if layout else ["ABA", "BA", "A"], dict(opts or {}))
     except Exception as e:
         bad = f"raised {type(e).__name__}: {e}"
     return {"violates": bool(bad), "detail": bad}
